@@ -798,6 +798,75 @@ theorem C20_links_out (p : Policy) (hp : Plain p.ensureInit) (hs : LinkClosed p.
     p.sanitizeCore (p.sanitizeCore input) = p.sanitizeCore input :=
   C20_fix_out p hp (UrlStableTag p.ensureInit) input (fun t _ => attrFixG_of_closed _ hs t) hstab
 
+
+/-- the class is inhabited: rel and target allowed on `a` next to href, nofollow and target-blank options -/
+def openPolicy : Policy :=
+  { initialized := true, requireParseableURLs := true, requireNoFollow := true,
+    addTargetBlankToFullyQualifiedLinks := true, allowURLSchemes := [(b!"https", [])],
+    elsAndAttrs := [(b!"a", [(b!"href", [Option.none]), (b!"rel", [Option.none]), (b!"target", [Option.none])])] }
+
+theorem openPolicy_rules (el : Bytes) (aps : AttrRules) (h : openPolicy.attrRulesFor el = some aps) :
+    el = b!"a" ∧ aps = [(b!"href", [Option.none]), (b!"rel", [Option.none]), (b!"target", [Option.none])] := by
+  simp only [openPolicy, Policy.attrRulesFor, Map.get?, Policy.matchRegex] at h
+  by_cases h1 : (b!"a" == el) = true
+  · simp only [h1, ↓reduceIte, Option.some.injEq] at h
+    exact ⟨(by simpa using h1 : b!"a" = el).symm, h.symm⟩
+  · simp [h1] at h
+
+example : LinkOpen openPolicy where
+  core := fun el =>
+    { noStyle := by simp [openPolicy, Policy.hasStylePolicies, Map.get?]
+      noCross := rfl
+      noSandbox := rfl
+      noRewriter := rfl }
+  blind := by
+    intro el aps h k hk v v'
+    obtain ⟨rfl, rfl⟩ := openPolicy_rules el aps h
+    have hkh : k = b!"href" := by
+      have : urlKeyFor b!"a" = some b!"href" := by decide
+      rw [this] at hk; exact (Option.some.inj hk).symm
+    subst hkh
+    exact filterAttr_blind _ _ _ _ (by decide) (by decide) v v'
+  letThrough := by
+    intro el aps h _ v
+    obtain ⟨rfl, rfl⟩ := openPolicy_rules el aps h
+    constructor <;> simp [Policy.filterAttr, openPolicy, Map.get?, attrPoliciesAccept, isDataAttribute]
+
+
+/-- … and so is `LinkClosed`: only href allowed on `a`, the same options -/
+def closedPolicy : Policy :=
+  { initialized := true, requireParseableURLs := true, requireNoFollow := true,
+    addTargetBlankToFullyQualifiedLinks := true, allowURLSchemes := [(b!"https", [])],
+    elsAndAttrs := [(b!"a", [(b!"href", [Option.none])])] }
+
+theorem closedPolicy_rules (el : Bytes) (aps : AttrRules) (h : closedPolicy.attrRulesFor el = some aps) :
+    el = b!"a" ∧ aps = [(b!"href", [Option.none])] := by
+  simp only [closedPolicy, Policy.attrRulesFor, Map.get?, Policy.matchRegex] at h
+  by_cases h1 : (b!"a" == el) = true
+  · simp only [h1, ↓reduceIte, Option.some.injEq] at h
+    exact ⟨(by simpa using h1 : b!"a" = el).symm, h.symm⟩
+  · simp [h1] at h
+
+example : LinkClosed closedPolicy where
+  base := fun el =>
+    { noStyle := by simp [closedPolicy, Policy.hasStylePolicies, Map.get?]
+      noCross := rfl
+      noSandbox := rfl
+      noRewriter := rfl
+      noRelTarget := by
+        intro aps h _ v
+        obtain ⟨rfl, rfl⟩ := closedPolicy_rules el aps h
+        exact ⟨filterAttr_noRule _ _ _ _ (by decide) (by decide) (by decide) v,
+               filterAttr_noRule _ _ _ _ (by decide) (by decide) (by decide) v⟩ }
+  blind := by
+    intro el aps h k hk v v'
+    obtain ⟨rfl, rfl⟩ := closedPolicy_rules el aps h
+    have hkh : k = b!"href" := by
+      have : urlKeyFor b!"a" = some b!"href" := by decide
+      rw [this] at hk; exact (Option.some.inj hk).symm
+    subst hkh
+    exact filterAttr_blind _ _ _ _ (by decide) (by decide) v v'
+
 /-- such a policy at work (a test, not the unbounded claim): rel and target are allowed on `a`, the options add
     to them in place, and the second pass changes nothing -/
 example :
